@@ -29,6 +29,15 @@ def norm_type(t):
     return re.sub(r'\bconst\b|&|\s+|Tins::', '', t)
 
 
+# option codes / data lengths / padding codes per option-bearing class (option histories)
+OPT_POOLS = {
+    'TCP': ([2, 3, 4, 8, 30, 254], [0, 1, 2, 4, 8, 10], {0, 1}),
+    'IP': ([7, 0x87, 0x44, 0x83, 0x94, 0x07 | 0x60], [0, 1, 2, 3, 6, 10], {0, 1}),
+    'DHCP': ([1, 3, 6, 12, 51, 53, 60, 61, 250], [0, 1, 4, 9, 253, 254, 255], {0, 255}),
+    'DHCPv6': ([1, 2, 6, 8, 16, 100], [0, 1, 2, 8, 300], set()),
+    'ICMPv6': ([1, 2, 3, 5, 14, 25, 100], [6, 14, 22], set()),
+    'Dot11Beacon': ([0, 1, 3, 5, 7, 16, 48, 221], [0, 1, 8, 9, 253, 254, 255], set()),
+}
 TYPED_EXCLUDE = {('BootP', 'vend'), ('DHCP', 'vend')}     # the size of the vendor area is a constructor parameter of the parser, not a property of the packet
 
 
@@ -195,6 +204,92 @@ def run(ctx):
         ctx.violation(bad[:300], '=== replay\n' + '\n'.join(lines) + '\n--- ' + bad + '\n--- C++ output\n' + '\n'.join(l[:600] for l in lh) + '\n')
     ctx.notes['typed_setters_swept'] = len(typed)
     ctx.notes['typed_failure_kinds'] = tkinds
+    # ---- option histories: add / remove-first / search-first against a shadow list, then through the wire ----
+    hscripts, hmeta = [], {}
+    for i in range(600 if quick else 12000):
+        cls = rng.choice(sorted(OPT_POOLS))
+        codes, lens, pad = OPT_POOLS[cls]
+        lines = ['new ' + cls] + PREP.get(cls, [])
+        base = len(lines)
+        shadow, steps = [], []
+        budget = 36 if cls in ('TCP', 'IP') else 100000
+        for _ in range(rng.randrange(1, 9)):
+            r = rng.random()
+            code = rng.choice(codes)
+            if r < 0.55 or not shadow:
+                ln = rng.choice(lens)
+                if sum(len(d) + 2 for _, d in shadow) + ln + 2 > budget:
+                    continue
+                data = bytes(rng.randrange(256) for _ in range(ln))
+                lines.append('aopt 0 %d x%s' % (code, data.hex()))
+                shadow.append((code, data))
+                steps.append(('a', list(shadow), None))
+            elif r < 0.8:
+                code = rng.choice([c for c, _ in shadow] + [code])
+                idx = next((j for j, (c, _) in enumerate(shadow) if c == code), None)
+                lines.append('ropt 0 %d' % code)
+                if idx is not None:
+                    shadow.pop(idx)
+                steps.append(('r', list(shadow), 1 if idx is not None else 0))
+            else:
+                code = rng.choice([c for c, _ in shadow] + [code])
+                hit = next((d for c, d in shadow if c == code), None)
+                lines.append('sopt 0 %d' % code)
+                steps.append(('s', list(shadow), hit))
+        lines += ['ser', 'rt ' + cls]
+        sid = 'o%d' % i
+        hscripts.append((sid, lines))
+        hmeta[sid] = (cls, base, steps, pad)
+    hh = C.run_harness('h_pkt', hscripts)
+    ctx.cov['evaluations'] += len(hscripts)
+    optre = re.compile(r'\((\d+),(\d+),x([0-9a-f]*)\)')
+
+    def opts_of(view_line):
+        m = re.search(r' options=\{([^}]*)\}', view_line.split(' | ')[0])
+        return [(int(a), bytes.fromhex(c)) for a, b, c in optre.findall(m.group(1))] if m else None
+    for sid, lines in hscripts:
+        cls, base, steps, pad = hmeta[sid]
+        lh = [l for l in hh.get(sid, []) if not l.startswith('!~')]
+        bad = None
+        crash = [l for l in lh if l.startswith('!!')]
+        if crash:
+            bad = '%s option history: %s' % (cls, crash[0])
+        else:
+            for j, (kind, sh, res) in enumerate(steps):
+                l = lh[base + j] if base + j < len(lh) else '<missing>'
+                if kind == 's':
+                    want = 'O 1 x' + res.hex() if res is not None else 'O 0'
+                    if l.strip() != want:
+                        bad = '%s: after %s, "%s" answers %s, the first matching option is %s' % (cls, lines[base:base + j], lines[base + j], l[:60], want[:60])
+                        break
+                    continue
+                if not l.startswith('P '):
+                    bad = '%s: "%s" fails: %s' % (cls, lines[base + j], l[:60])
+                    break
+                if kind == 'r' and l.split()[1] != str(res):
+                    bad = '%s: "%s" returned %s, expected %d' % (cls, lines[base + j], l.split()[1], res)
+                    break
+                got = opts_of(l)
+                if got != sh:
+                    bad = '%s: after "%s" the options are %s, expected %s' % (cls, lines[base + j], [(c, d.hex()[:12]) for c, d in (got or [])][:6], [(c, d.hex()[:12]) for c, d in sh][:6])
+                    break
+            else:
+                n = base + len(steps)
+                if len(lh) > n + 1 and lh[n].startswith('S ') and lh[n + 1].startswith('Q '):
+                    back = [o for o in (opts_of(lh[n + 1]) or []) if o[0] not in pad]
+                    final = [o for o in (steps[-1][1] if steps else []) if o[0] not in pad]
+                    if back != final:
+                        bad = '%s: options %s come back from the wire as %s' % (cls, [(c, len(d)) for c, d in final][:8], [(c, len(d)) for c, d in back][:8])
+                    else:
+                        nontriv.add(tuple(lines))
+                elif len(lh) > n:
+                    bad = '%s: serialize/re-parse after an option history fails: %s' % (cls, [x[:30] for x in lh[n:n + 2]])
+        if bad:
+            kshort = re.sub(r'x[0-9a-f]+|\d+', 'N', bad)[:60]
+            if kshort in seen:
+                continue
+            seen.add(kshort)
+            ctx.violation(bad[:400], '=== replay\n' + '\n'.join(lines) + '\n--- ' + bad + '\n--- C++ output\n' + '\n'.join(l[:400] for l in lh) + '\n')
     h = C.run_harness('h_pkt', scripts)
     ctx.cov['evaluations'] += len(scripts)
     import json
